@@ -3,7 +3,7 @@ C16 — encoders write exactly the reported bytes and refuse documented-invalid 
 Also the refinement every other encoder property rests on: an encoder call on a caller
 buffer is the pure packet spliced over the front of the buffer.
 -/
-import Mctp.Lemmas.Encode
+import Mctp.Lemmas.EncodeApi
 import Mctp.Spec.Api
 namespace Mctp
 namespace C16
@@ -12,7 +12,10 @@ namespace C16
 theorem refine (c : Ctx) (dst : B) (e : Enc) (buf pkt : Bytes)
     (hb : encodeBytes c dst e = .ok pkt) (hl : pkt.length ≤ buf.length) :
     encode c dst e buf = .ok (pkt ++ buf.drop pkt.length, pkt.length) := by
-  sorry
+  obtain ⟨t, h, d, hbd, hs, hf, hp⟩ := (encodeBytes_ok_iff c dst e pkt).mp hb
+  subst hp
+  rw [packetBytes_length] at hl ⊢
+  exact (encode_ok_iff c dst e buf _ _).mpr ⟨t, h, d, hbd, hs, hf, hl, rfl, rfl⟩
 
 /-- every successful call is the pure packet over the front of the buffer: exactly the first
 `n` bytes are written, the rest is untouched, and bytes and length do not depend on the buffer -/
@@ -20,28 +23,58 @@ theorem ok_inv (c : Ctx) (dst : B) (e : Enc) (buf buf' : Bytes) (n : Nat)
     (h : encode c dst e buf = .ok (buf', n)) :
     ∃ pkt, encodeBytes c dst e = .ok pkt ∧ n = pkt.length ∧ n ≤ buf.length ∧
       buf' = pkt ++ buf.drop n := by
-  sorry
+  obtain ⟨t, hd, d, hbd, hs, hf, hl, hp, hn⟩ := (encode_ok_iff c dst e buf buf' n).mp h
+  subst hp hn
+  exact ⟨_, (encodeBytes_ok_iff c dst e _).mpr ⟨t, hd, d, hbd, hs, hf, rfl⟩,
+    (packetBytes_length ..).symm, hl, rfl⟩
 
 theorem written_exactly (c : Ctx) (dst : B) (e : Enc) (buf buf' : Bytes) (n : Nat)
     (h : encode c dst e buf = .ok (buf', n)) :
     buf'.length = buf.length ∧ buf'.drop n = buf.drop n := by
-  sorry
+  obtain ⟨pkt, -, rfl, hl, rfl⟩ := ok_inv c dst e buf buf' n h
+  constructor
+  · simp; omega
+  · simp
 
 theorem independent_of_buffer (c : Ctx) (dst : B) (e : Enc) (b1 b1' b2 b2' : Bytes) (n1 n2 : Nat)
     (h1 : encode c dst e b1 = .ok (b1', n1)) (h2 : encode c dst e b2 = .ok (b2', n2)) :
     n1 = n2 ∧ b1'.take n1 = b2'.take n2 := by
-  sorry
+  obtain ⟨p1, e1, rfl, -, rfl⟩ := ok_inv c dst e b1 b1' n1 h1
+  obtain ⟨p2, e2, rfl, -, rfl⟩ := ok_inv c dst e b2 b2' n2 h2
+  rw [e1] at e2; cases e2
+  simp
 
 /-- an error leaves the buffer untouched (errors carry no buffer: the model returns none) and
 happens exactly when the pure form errs -/
 theorem err_iff (c : Ctx) (dst : B) (e : Enc) (buf : Bytes) :
     encode c dst e buf = .err () ↔ encodeBytes c dst e = .err () := by
-  sorry
+  cases hs : e.isStub
+  · cases hb : e.body c with
+    | ok a =>
+      obtain ⟨t, h, d⟩ := a
+      rw [encode_of_body hb hs, genPacket_err_iff]
+      unfold encodeBytes
+      rw [hb, Out.bind_ok]
+      simp only [hs]
+      rw [if_neg (by simp)]
+      unfold maxBodyLen
+      split <;> simp <;> omega
+    | err u => unfold encode encodeBytes; rw [hb]; simp
+    | panic p => unfold encode encodeBytes; rw [hb]; simp
+  · constructor
+    · intro h; exact absurd h (encode_stub_ne_err hs buf)
+    · intro h
+      unfold encodeBytes at h
+      cases hb : e.body c with
+      | ok a => rw [hb, Out.bind_ok] at h; simp [hs] at h
+      | err u => cases e <;> simp [Enc.isStub] at hs <;> simp [Enc.body] at hb
+      | panic p => rw [hb] at h; simp at h
 
 /-- documented-invalid arguments are refused -/
 theorem refuse_documented (c : Ctx) (dst : B) (e : Enc) (buf : Bytes)
     (h : Spec.documentedInvalid e = true) : encode c dst e buf = .err () := by
-  sorry
+  unfold encode
+  rw [(body_err_iff c e).mpr h, Out.bind_err]
 
 /-- every other well-shaped argument that fits the SMBus frame succeeds, without panicking,
 given a buffer at least as long as the packet -/
@@ -51,14 +84,39 @@ theorem accept_others (c : Ctx) (dst : B) (e : Enc) (buf : Bytes)
       (1 + optLen h + d.length ≤ 250 → 10 + optLen h + d.length ≤ buf.length →
         ∃ buf', encode c dst e buf = .ok (buf', 10 + optLen h + d.length)) ∧
       (250 < 1 + optLen h + d.length → encode c dst e buf = .err ()) := by
-  sorry
+  cases hb : e.body c with
+  | ok a =>
+    obtain ⟨t, h, d⟩ := a
+    refine ⟨t, h, d, rfl, ?_, ?_⟩
+    · intro hf hl
+      exact ⟨_, by rw [encode_of_body hb hs, genPacket_ok _ _ _ _ _ _ hf hl]⟩
+    · intro hbig
+      rw [encode_of_body hb hs, genPacket_oversize _ _ _ _ _ _ hbig]
+  | err u =>
+    have := (body_err_iff c e).mp hb
+    rw [this] at hd; cases hd
+  | panic p =>
+    have := body_panic c e p hb
+    rw [this] at ha; cases ha
 
 /-- errors are exactly: documented-invalid arguments, or a body that does not fit -/
 theorem err_only_if (c : Ctx) (dst : B) (e : Enc) (buf : Bytes) (ha : Spec.argsOk e = true)
     (h : encode c dst e buf = .err ()) :
     Spec.documentedInvalid e = true ∨
       ∃ t hd d, e.body c = .ok (t, hd, d) ∧ 250 < 1 + optLen hd + d.length := by
-  sorry
+  have _ := ha
+  cases hb : e.body c with
+  | ok a =>
+    obtain ⟨t, hd, d⟩ := a
+    right
+    cases hs : e.isStub
+    · rw [encode_of_body hb hs, genPacket_err_iff] at h
+      exact ⟨t, hd, d, rfl, h⟩
+    · exact absurd h (encode_stub_ne_err hs buf)
+  | err u => exact .inl ((body_err_iff c e).mp hb)
+  | panic p =>
+    unfold encode at h
+    rw [hb] at h; simp at h
 
 end C16
 end Mctp
